@@ -11,7 +11,10 @@
 (*   k       = number of nodes within graph distance `dist` with status cnt*)
 (*   rate    = IF k >= thr THEN base + coef*k ELSE 0                       *)
 (*   chooser = IF some node within `dist` has status altif THEN alt ELSE to*)
-(* and the influence set of u is every node within distance `infl` of u.   *)
+(*             (alt may equal the current status: a null transition, which *)
+(*             still is an event with its own waiting time)                *)
+(* and the influence set of u is every node within a radius that may       *)
+(* depend on the status u has just taken (inflby).                         *)
 (* Covers threshold contagion, SIR written as a complex contagion, cyclic  *)
 (* 3-status models and long-range (distance-2) influence.                  *)
 (*                                                                         *)
@@ -48,7 +51,10 @@ Rate(u, S) ==
 Choose(u, S) ==
     LET r == Rules[RuleOf(S[u])]
     IN IF \E v \in Within(u, r.dist) : S[v] = r.altif THEN r.alt ELSE r.to
-Influence(u) == Within(u, Scenarios[sc].infl)
+\* the influence set is computed AFTER the change and may depend on the changed node's new status:
+\* inflby[k] is the radius used when the node has just taken status number k (0 = nobody)
+StatusIdx(x) == CHOOSE k \in 1..Len(Scenarios[sc].statuses) : Scenarios[sc].statuses[k] = x
+InfluenceAfter(u, S2) == LET r == Scenarios[sc].inflby[StatusIdx(S2[u])] IN IF r = 0 THEN {} ELSE Within(u, r)
 
 Init == /\ sc \in 1..NS
         /\ st \in [Nodes -> Statuses]
@@ -58,7 +64,7 @@ Init == /\ sc \in 1..NS
 Fire(u) ==
     /\ rates[u] > 0
     /\ st' = [st EXCEPT ![u] = Choose(u, st)]
-    /\ rates' = [v \in Nodes |-> IF v = u \/ v \in Influence(u) THEN Rate(v, st') ELSE rates[v]]
+    /\ rates' = [v \in Nodes |-> IF v = u \/ v \in InfluenceAfter(u, st') THEN Rate(v, st') ELSE rates[v]]
     /\ ev' = <<u, Choose(u, st), rates[u]>>
     /\ UNCHANGED sc
 
